@@ -1,6 +1,7 @@
 """C14: icontract postconditions (record-and-return) on partial / partial2 / gradient / hessian / __call__ of every
 basis-function class: the returned derivative must equal the derivative of the object's own evaluation (complex-step
 differentiation; central differences where the evaluation is not analytic, i.e. B-splines)."""
+import collections
 import importlib
 
 import numpy as np
@@ -78,6 +79,26 @@ def _params(obj):
     return {k: (v if np.isscalar(v) else repr(v)[:60]) for k, v in vars(obj).items() if k not in ('bsp', 'bsp1', 't', 'initialized')}
 
 
+# results handed out earlier (array, bitwise copy at hand-out time, label): a later call on the same or another function
+# object must not change them (a caller collecting [f.gradient(x) for x in points] relies on that)
+RETAINED = collections.deque(maxlen=12)
+
+
+def _retain_and_check(fn, a):
+    c = core.ctx()
+    keep = []
+    for (arr, cp, label) in RETAINED:
+        same = arr.shape == cp.shape and np.array_equal(arr, cp, equal_nan=True)
+        c.check(label, 'earlier_result_unchanged_by_later_calls', same, [], {'was': cp, 'now': arr, 'later_call': fn.__name__} if not same else None, prop=P)
+        if same:
+            keep.append((arr, cp, label))
+    RETAINED.clear()
+    RETAINED.extend(keep)
+    result = a[-1]
+    if isinstance(result, np.ndarray) and result.size <= 4096:
+        RETAINED.append((result, result.copy(), 'transform.%s.%s' % (_family(a[0]), fn.__name__.replace('post_', ''))))
+
+
 def _guarded(fn):
     def wrapper(*a, **kw):
         if probe.S.busy or not probe.S.armed:
@@ -85,6 +106,8 @@ def _guarded(fn):
         probe.S.busy += 1
         try:
             fn(*a, **kw)
+            if not kw:
+                _retain_and_check(fn, a)
         except Exception:
             probe.monitor_error('transform.' + fn.__name__, 'post')
         finally:
